@@ -32,6 +32,14 @@ package pod
 //@ # (labelled guards: all status writes of podDelete form one obligation, whatever their order)
 //@ guard call SubResourceWriter.Update in podDelete as delete-steps: isptr(arg1, v1beta1.PodENI) && (asptr(arg1, v1beta1.PodENI).Status.Phase == "Deleting" || (asptr(arg1, v1beta1.PodENI).Status.Phase == "Detaching" && prePodENI.Status.Phase != "Deleting" && prePodENI.Status.Phase != "Detaching"))
 //@ # ... and Detaching is entered from Bind (see /verif/known_findings.json: fixed-IP records in Initial/Binding/Unbind are also sent to Detaching)
+//@ for C10 C11
+//@ # ... and a record with ANY fixed allocation is parked (Detaching), never sent to Deleting by the pod's deletion: its
+//@ # interface and address are kept for the recreated pod until the TTL of the allocation has run out (C11)
+//@ guard call SubResourceWriter.Update in podDelete as fixed-is-parked: asptr(arg1, v1beta1.PodENI).Status.Phase == "Deleting" ==> (forall j int :: 0 <= j && j < len(prePodENI.Spec.Allocations) ==> prePodENI.Spec.Allocations[j].AllocationType.Type != "Fixed")
+//@ func ReconcilePod.podDelete
+//@   loop 1 invariant -1 <= rangeindex && rangeindex < len(prePodENI.Spec.Allocations)
+//@   loop 1 invariant !haveFixedIP ==> (forall j int :: 0 <= j && j <= rangeindex ==> prePodENI.Spec.Allocations[j].AllocationType.Type != "Fixed")
+//@ for C10
 //@ guard call SubResourceWriter.Update in podDelete as detach-from-bind: asptr(arg1, v1beta1.PodENI).Status.Phase == "Detaching" ==> prePodENI.Status.Phase == "Bind"
 
 //@ for C15
